@@ -232,6 +232,7 @@ func init() {
 		in.unsupported("model: %s", in.argStr(args[0], "reason"))
 		return nil
 	})
+	reg(rtPkg+".Native", func(in *Interp, fr *frame, fn *ssa.Function, args []Value) Value { return in.tb.fls })
 	reg(rtPkg+".ExpectPanic", func(in *Interp, fr *frame, fn *ssa.Function, args []Value) Value {
 		in.expectPanic = true
 		return nil
